@@ -1593,6 +1593,9 @@ static int c12_lit_call(int ext, int grow, uint8_t *p, int w, int64_t a) {
     }
 }
 
+static uint8_t C12_PLACE_BUF[256] __attribute__((aligned(64)));
+static int g_c12_place = -1; /* -1: slot ends at a guard page; 0..127: slot starts at that byte of an aligned line */
+
 static void c12_one(int ext, uint64_t su, int w, int64_t a, int grow) {
     /* slot: exactly w bytes for no-grow, family max for grow, at the end of a guard buffer */
     int maxlen = ext ? 8 : 9;
@@ -1604,7 +1607,14 @@ static void c12_one(int ext, uint64_t su, int w, int64_t a, int grow) {
     const char *api = ext ? (grow ? "external.AddGrow" : "external.AddNoGrow") : (grow ? "tagged.AddGrow" : "tagged.AddNoGrow");
     const char *trig = c12_trigger(ext, s, a, w, grow);
     for (int bgi = 0; bgi < 2; bgi++) {
-        uint8_t *p = vh_gb_get(0, (size_t)slot, bgi ? 0x5a : 0xa5);
+        uint8_t *p;
+        if (g_c12_place < 0) {
+            p = vh_gb_get(0, (size_t)slot, bgi ? 0x5a : 0xa5);
+        } else {
+            /* slot inside a record: at byte g_c12_place of a 64-byte-aligned line, neighbours on both sides */
+            memset(C12_PLACE_BUF, bgi ? 0x5a : 0xa5, sizeof C12_PLACE_BUF);
+            p = C12_PLACE_BUF + 64 + g_c12_place;
+        }
         if (ext) {
             varintExternalPutFixedWidth(p, su, (varintWidth)w);
         } else {
@@ -1627,11 +1637,20 @@ static void c12_one(int ext, uint64_t su, int w, int64_t a, int grow) {
         }
         vh_count("calls", 1);
         memcpy(after, p, (size_t)slot);
-        int canary = vh_gb_canary_ok(0);
+        int canary = 1;
+        if (g_c12_place < 0) {
+            canary = vh_gb_canary_ok(0);
+        } else {
+            for (size_t q = 0; q < sizeof C12_PLACE_BUF; q++) {
+                if ((C12_PLACE_BUF + q < p || C12_PLACE_BUF + q >= p + slot) && C12_PLACE_BUF[q] != (bgi ? 0x5a : 0xa5)) {
+                    canary = 0;
+                }
+            }
+        }
         int newlen = ext ? ref_bytes_of((uint64_t)sum) : ref_tagged((uint64_t)sum, (uint8_t[16]){0});
         const char *outcome;
         if (!canary) {
-            vh_fail(api, "stray_write", trig, "bytes before the slot changed: stored=%" PRIu64 " w=%d add=%" PRId64, su, w, a);
+            vh_fail(api, "stray_write", trig, "bytes outside the slot changed: stored=%" PRIu64 " w=%d add=%" PRId64, su, w, a);
         }
         if (ovf) {
             outcome = "overflow";
@@ -1789,6 +1808,57 @@ static void run_c12(void) {
             vh_count("cases", 48);
         }
         vh_class("add/byte-patterns", "5^8 stored values x 12 amounts x {grow, no-grow} x {tagged, external}");
+    }
+    /* slot placement: the same call must store the same bytes wherever the slot lies - every start offset 0..127
+     * relative to a 64-byte line (so every way the old and the new encoding can straddle a 4-, 8-, 16- or 64-byte
+     * boundary), with live neighbours on both sides. Stored values: per width class the smallest, the largest and a
+     * value whose bytes are all different; amounts of both signs that keep, widen and narrow the encoding. */
+    if (vh_section_begin("add/placements")) {
+        static const uint64_t PAT = 0x0102030405060708ULL;
+        static const int64_t AM[] = {0, 1, -1, 255, -256, 0x010203, -0x010203, 0x0102030405LL, -0x0102030405LL,
+                                     0x01020304050607LL, -0x01020304050607LL, 0x7060504030201000LL, INT64_MAX, INT64_MIN};
+        uint64_t SV[64];
+        size_t nsv = 0;
+        SV[nsv++] = 0;
+        for (int b = 1; b <= 8; b++) {
+            uint64_t hi = b == 8 ? ~0ULL : ((1ULL << (8 * b)) - 1);
+            SV[nsv++] = hi;                  /* largest b-byte value */
+            SV[nsv++] = (hi >> 8) + 1;       /* smallest b-byte value */
+            SV[nsv++] = PAT >> (8 * (8 - b)); /* b distinct bytes */
+            SV[nsv++] = 5000000000ULL >> (8 * (8 - b > 3 ? 3 : 0));
+        }
+        SV[nsv++] = 240;
+        SV[nsv++] = 2287;
+        SV[nsv++] = 2288;
+        SV[nsv++] = 67823;
+        SV[nsv++] = 67824;
+        SV[nsv++] = 16777215;
+        SV[nsv++] = 16777216;
+        SV[nsv++] = (uint64_t)INT64_MAX;
+        for (int off = 0; off < 128; off++) {
+            if (!vh_case()) {
+                continue;
+            }
+            g_c12_place = off;
+            for (size_t i = 0; i < nsv; i++) {
+                for (int ext = 0; ext < 2; ext++) {
+                    int minw = ext ? ref_bytes_of(SV[i]) : ref_tagged(SV[i], (uint8_t[16]){0});
+                    int maxw = ext ? 8 : minw;
+                    for (int w = minw; w <= maxw; w += (maxw - minw > 1 ? maxw - minw : 1)) {
+                        for (size_t ai = 0; ai < sizeof AM / sizeof *AM; ai++) {
+                            for (int grow = 0; grow < 2; grow++) {
+                                c12_one(ext, SV[i], w, AM[ai], grow);
+                            }
+                        }
+                    }
+                }
+            }
+            g_c12_place = -1;
+            vh_count("cases", 1);
+            char ck[48];
+            snprintf(ck, sizeof ck, "add/placements/off%%64=%d", off % 64);
+            vh_class(ck, "slot at byte %d of an aligned 64-byte line", off);
+        }
     }
     if (vh_thorough && vh_section_begin("add/dense")) {
         /* dense small scope: every stored value below 70000 (all 1-3 byte tagged classes and their boundaries) x every
